@@ -307,4 +307,21 @@ def genSpec (tasks : List Task) (checklist : List Nat) : GenRes × List Nat :=
 def holdsGen (tasks : List Task) (checklist : List Nat) (res : GenRes × List Nat) : Bool :=
   res == genSpec tasks checklist
 
+/-! ## the real tasks inside `Generate` -/
+
+/-- `DepositSweepTask.Run`: an error of the discovery is an error of the task, no deposits = no
+    result, otherwise a proposal over exactly the discovered deposits (proposal validation is the
+    chain's, assumed to accept) -/
+def sweepOutcome (r : DepStatus × List Deposit) : Outcome :=
+  if r.1 != .ok then .error else if r.2.isEmpty then .empty else .proposal
+
+/-- `RedemptionTask.Run` -/
+def redOutcome (r : RedStatus × List Pending) : Outcome :=
+  if r.1 != .ok then .error else if r.2.isEmpty then .empty else .proposal
+
+/-- the production task list restricted to the two discovery tasks of this property
+    (`ActionDepositSweep = 2`, `ActionRedemption = 3`) -/
+def fullTasks (d : DepStatus × List Deposit) (r : RedStatus × List Pending) : List Task :=
+  [⟨2, sweepOutcome d⟩, ⟨3, redOutcome r⟩]
+
 end KeepVerif.C33
